@@ -276,6 +276,9 @@ def run(facts, cg=None):
         key = 'R-OPENFLAGS|%s|%s' % (b_q, what)
         if key not in {x['key'] for x in findings}:
             findings.append({'rule': 'R-OPENFLAGS', 'key': key, 'function': b_q, 'what': detail})
+    compress_region = set()
+    if cg is not None:
+        compress_region = cg.reachable([x.id for x in facts.bodies.values() if x.q == 'bita::compress_cmd::compress_cmd'])
     for b in facts.bodies.values():
         if b.crate != 'bita':
             continue
@@ -292,6 +295,14 @@ def run(facts, cg=None):
             if not writable:
                 continue
             is_temp = ch['inputs'] == [] and 'temp' in (ch['path'] or '')
+            if b.id in compress_region:
+                # everything compress writes is produced from scratch and later read / shipped as a whole: a file opened for
+                # writing that can keep older, longer content (no truncate, no create_new) ends with stale bytes
+                for r in rows:
+                    eff = set(r['effective'])
+                    if eff & {'write', 'append'} and not (eff & {'truncate', 'create_new'}):
+                        finding(b.q, 'stale-content:' + str(ch['path']), 'compress opens %s for writing with flags %s: older, longer content of '
+                                'that file survives behind what is written now' % (ch['path'], sorted(eff)))
             for r in rows:
                 eff = set(r['effective'])
                 fl = r['flags']
